@@ -211,6 +211,23 @@ func c20BuildPool(r *rand.Rand) (*c20pool, error) {
 	p.D, p.O = 3, 2
 	w, b := RandT(r, []int{p.O}, -1, 1), RandT(r, []int{p.O}, -1, 1)
 	p.fc, err = layers.NewFC(&layers.FCConfig{Inputs: p.D, Outputs: p.O, Initializers: map[string]layers.Initializer{"Weight": fixedInit{w}, "Bias": fixedInit{b}}})
+	if err == nil && r.Intn(2) == 0 {
+		// the layer has a history before it is shared: it served a batch, was back-propagated through and its parameters were REPLACED by
+		// an optimizer step and re-armed (one training step, then concurrent inference): whatever the layer derived from its old
+		// parameters must not be what the goroutines' first Forward calls use
+		var y tensor.Tensor
+		if y, err = p.fc.Forward(rt.MustLeaf(RandT(r, []int{2, p.D}, -1, 1), false)); err == nil {
+			if err = tensor.BackPropagate(y); err == nil {
+				step := optimizers.NewSGD(&optimizers.SGDConfig{LearningRate: 0.5})
+				for _, wp := range p.fc.Weights() {
+					if err = step.Update(wp.Value); err != nil {
+						break
+					}
+					(*wp.Value).ResetGradContext(true)
+				}
+			}
+		}
+	}
 	if err != nil {
 		return nil, err
 	}
@@ -1153,7 +1170,7 @@ func runC20(c *fw.Ctx) {
 				// focused runs: every goroutine does jobs of ONE kind at the same time (with its own seeds), so that the windows of that
 				// kind - a shared loss object rebuilt for another batch shape, shape operations on one shared result, transposes of one
 				// shared tensor, private products - overlap in every run instead of once in a while
-				kind := []string{"shared-loss", "shape-ops-on-a-shared-result", "transpose-shared", "private-matmul", "read-gradient"}[(i/8)%5]
+				kind := []string{"shared-loss", "shape-ops-on-a-shared-result", "transpose-shared", "private-matmul", "read-gradient", "layer"}[(i/8)%6]
 				for g := range jobs {
 					jobs[g] = jobs[g][:0]
 					for n := 0; n < 8; n++ {
